@@ -442,6 +442,25 @@ def _build(v, w):
         mod, name = a.split(".", 1)
         cls = w.obj(mod, name)
         return cls(**{k: _build(x, w) for k, x in v["f"].items()})
+    if tag == "$chain":
+        # a linked value given as a flat list of levels (outermost first): built iteratively, so
+        # that histories with very deep values stay shallow JSON
+        inner = None
+        for lv in reversed(a):
+            fields = {k: _build(x, w) for k, x in lv["f"].items()}
+            ek = lv["edge"]
+            if inner is None:
+                link = {"union": None, "list": [], "dict": {}, "tuplevar": ()}[ek]
+                link = link.copy() if hasattr(link, "copy") else link
+            else:
+                link = {"union": lambda y: y, "list": lambda y: [y], "dict": lambda y: {"k": y}, "tuplevar": lambda y: (y,)}[ek](inner)
+            fields[lv["edge_field"]] = link
+            if lv["tag"] == "$dict":
+                inner = fields
+            else:
+                mod, name = lv["cls"].split(".", 1)
+                inner = w.obj(mod, name)(**fields)
+        return inner
     if tag == "$iter":  # one-shot iterator over the built elements
         return iter([_build(x, w) for x in a])
     if tag == "$gen":
